@@ -221,15 +221,24 @@ def random_case(rng, maxlen):
 
 
 def _worker(case):
+    import signal
+
     from harness import hpeer
 
+    def too_long(signum, frame):
+        raise TimeoutError('script ran for more than 120 s of wall-clock time')
+
+    signal.signal(signal.SIGALRM, too_long)
+    signal.alarm(120)
     try:
         res = hpeer.run_script(case['steps'])
         return res
-    except Exception as exc:  # a crash of the rig itself is a harness failure, reported as such
+    except BaseException as exc:  # a crash of the rig itself is a harness failure, reported as such
         import traceback
 
         return {'error': f'{type(exc).__name__}: {exc}', 'tb': traceback.format_exc()[-1500:]}
+    finally:
+        signal.alarm(0)
 
 
 def run_all(cases, workers=12):
